@@ -100,7 +100,8 @@ pub fn alphabet(cfg: &Config) -> Alpha {
     let f1 = vec![b1, b1 + 0x4000_0000, (1u64 << 52) - 0x4000_0000];
     // indices 0..LEAF_IN_DOMAIN / 0..PARENT_IN_DOMAIN are the quantified domain; the last element of each list lacks PRESENT
     // (outside the quantified domain; explored as a deviation with a reduced, representation-level oracle)
-    let leaf_flags = vec![P | W, P, P | W | U | 0x100 | 0x200 | (1 << 63), P | HUGE /* = PAT bit on a 4 KiB leaf; only used for 4 KiB */, W];
+    // index 5: PAT bit of huge pages (bit 12, overlaps the address field of 4 KiB-granular addresses: O2) — outside the domain too
+    let leaf_flags = vec![P | W, P, P | W | U | 0x100 | 0x200 | (1 << 63), P | HUGE /* = PAT bit on a 4 KiB leaf; only used for 4 KiB */, W, P | W | 0x1000];
     let parent_flags = vec![P | W, P, P | W | U, W];
     // identity map: lower-half alphabet pages whose address is also a valid physical address
     let mut ident = Vec::new();
@@ -188,6 +189,7 @@ pub const LEAF_IN_DOMAIN: u8 = 4;
 pub const PARENT_IN_DOMAIN: u8 = 3;
 pub const LEAF_OOD: u8 = 4;
 pub const PARENT_OOD: u8 = 3;
+pub const LEAF_PAT_HUGE: u8 = 5;
 
 pub fn actions(al: &Alpha) -> Vec<(Act, u8)> {
     let mut v: Vec<(Act, u8)> = Vec::new();
@@ -220,6 +222,10 @@ pub fn actions(al: &Alpha) -> Vec<(Act, u8)> {
         v.push((Act::Update { page: pi, flags: 2 }, 1));
         for level in [4u8, 3, 2] {
             v.push((Act::SetP { level, page: pi, flags: 1 }, 1));
+        }
+        // outside the quantified domain: a huge page mapped with its PAT bit (bit 12)
+        if sz > 0 {
+            v.push((Act::Map { page: pi, frame: 0, flags: LEAF_PAT_HUGE, parent: 0, sched: 0 }, 1));
         }
         // outside the quantified domain: flags without PRESENT
         v.push((Act::Update { page: pi, flags: LEAF_OOD }, 1));
@@ -465,7 +471,7 @@ fn do_sized<S: PageSize, M: Mapper<S>>(m: &mut M, act: &Act, al: &Alpha, page_va
 }
 
 pub fn is_ood_action(act: &Act) -> bool {
-    matches!(act, Act::Update { flags, .. } if *flags == LEAF_OOD) || matches!(act, Act::SetP { flags, .. } if *flags == PARENT_OOD)
+    matches!(act, Act::Update { flags, .. } if *flags == LEAF_OOD) || matches!(act, Act::SetP { flags, .. } if *flags == PARENT_OOD) || matches!(act, Act::Map { flags, .. } if *flags == LEAF_PAT_HUGE)
 }
 
 /// page (size, start) an action works on
